@@ -132,8 +132,11 @@ class Normaliser:
             return None
         if isinstance(node, ast.Name):
             if isinstance(node.ctx, ast.Load) and node.id not in bound and node.id in env:
-                self.used_ids.add(id(env[node.id]))
-                return env[node.id]
+                v_ = env[node.id]
+                if id(v_) not in self.used_ids:
+                    for x_ in ast.walk(v_):
+                        self.used_ids.add(id(x_))
+                return v_
             return node
         if isinstance(node, ast.Constant):
             return node
@@ -636,6 +639,12 @@ class Normaliser:
                 return [("return", t)]
             if (ea[0][1], eb[0][1]) == (Fa, T):
                 return [("return", ("not", t))]
+        # canonical order of independent tests: `if a: (if b: X else: Y) else: (if b: Z else: W)` with b before a is rotated
+        if len(ea) == 1 and len(eb) == 1 and ea[0][0] == "if" and eb[0][0] == "if" and ea[0][1] == eb[0][1] and repr(ea[0][1]) < repr(t):
+            t2 = ea[0][1]
+            x, y = ea[0][2], ea[0][3]
+            z, w = eb[0][2], eb[0][3]
+            return self.mk_if(t2, self.mk_if(t, x, z), self.mk_if(t, y, w))
         return [("if", t, tuple(ea), tuple(eb))]
 
     def emit(self, kind, exprs, make):
@@ -706,7 +715,7 @@ class Normaliser:
                 self.bind_var(nm, value, env, eff)
             else:
                 env[nm] = value
-                if any(isinstance(x, ast.Call) for x in ast.walk(value)):
+                if any(isinstance(x, ast.Call) for x in ast.walk(value)) and not getattr(value, "_unpacked_item", False):
                     self.pending[id(value)] = value
             return
         if isinstance(target, (ast.Tuple, ast.List)):
@@ -734,6 +743,7 @@ class Normaliser:
                     item = ast.Subscript(value=src.value, slice=ast.Constant(value=lo_hi + i), ctx=ast.Load())   # a, b = x[1:3]: x[1], x[2]
                 else:
                     item = ast.Call(func=ast.Name(id="\x00unpack", ctx=ast.Load()), args=[src, ast.Constant(value=i), ast.Constant(value=n_t)], keywords=[])
+                item._unpacked_item = True
                 self.assign(t, item, env, eff, True)
             return
         if isinstance(target, (ast.Subscript, ast.Attribute)):
